@@ -220,6 +220,10 @@ def evidence(prop, tier, seed, lines, tot, hellos, wall, n_viol, known_lines, mo
             cov[k] = len(v)
         else:
             cov[k] = v
+    if "pairs" in cov and isinstance(cov.get("entry_points"), dict):
+        cov["ordered_pairs_covered"] = cov.pop("pairs")
+        cov["ordered_pairs_total"] = len(cov["entry_points"]) ** 2
+        cov["ordered_pairs_note"] = "ordered pairs (A executed before B in one history) over the entry points that occurred in this batch"
     if "clock_span_us" in cov:
         cov["simulated_time_covered_s"] = round(cov.pop("clock_span_us") / 1e6)
     if extra:
